@@ -14,7 +14,8 @@ from ..model import UNKNOWN, AnchorError, Func, UnknownIdiom, dotted, short, unp
 from .appflow import ASGI_CALL, WSGI_CALL, AppFlow
 from .c04_helpers import (DROP, Index, aliases as _aliases, SiteEscape, assume_none, assigned_none_attrs, attr_of, catches_exception, combine,
                           def_value, effective_method, eval3, handler_class_quals, is_name, none_test, param_at, project_pruned, pruned,
-                          split_key, subject_tests, undecided_subject_test)
+                          refuted, split_key, subject_tests, undecided_subject_test)
+from . import c09_helpers as _c9
 from .common import is_self_attr, mentions, nodes_within, single, strip_await, walk_self
 
 WSGI_APP = 'falcon.app.App'
@@ -991,6 +992,445 @@ def _ctor_wiring(run, qual: str, attrs):
                   where=f.loc())
 
 
+# ---------------------------------------------------------------------------
+# R4 (f) the default serializer's media type is negotiated, on every path
+# ---------------------------------------------------------------------------
+
+CASE_METHODS = ('lower', 'upper', 'casefold')
+TEXT_METHODS = CASE_METHODS + ('strip', 'lstrip', 'rstrip')
+CATCH_ALL_RANGE = '*/*'
+
+
+class _AcceptText:
+    """What, in the serializer, denotes the text of the Accept header: `<req>.accept`, a parameterless str method of
+    it, or a local all of whose bindings are such (greatest fixpoint, so `accept = accept.lower()` stays one)."""
+
+    def __init__(self, p, f: Func, reqn: str):
+        self.p, self.f, self.reqn = p, f, reqn
+        binds: Dict[str, List[Optional[ast.AST]]] = {}
+        for n in walk_self(f.node):
+            if isinstance(n, ast.Assign):
+                for t in n.targets:
+                    for xn in ast.walk(t):
+                        if isinstance(xn, ast.Name) and isinstance(xn.ctx, ast.Store):
+                            binds.setdefault(xn.id, []).append(n.value if t is xn else None)
+            elif isinstance(n, ast.AnnAssign) and isinstance(n.target, ast.Name):
+                if n.value is not None:
+                    binds.setdefault(n.target.id, []).append(n.value)
+            elif isinstance(n, (ast.For, ast.AsyncFor, ast.AugAssign, ast.NamedExpr)):
+                for xn in ast.walk(n.target):
+                    if isinstance(xn, ast.Name):
+                        binds.setdefault(xn.id, []).append(None)
+        self.binds = binds
+        names = {k for k in binds if k not in f.params()}
+        while True:
+            keep = {k for k in names if all(v is not None and self._is(v, names) for v in binds[k])}
+            if keep == names:
+                break
+            names = keep
+        self.names = names
+
+    def _is(self, e, names) -> bool:
+        if attr_of(e, self.reqn, ('accept',)):
+            return True
+        if isinstance(e, ast.Name):
+            return e.id in names
+        if isinstance(e, ast.Call) and isinstance(e.func, ast.Attribute) and e.func.attr in TEXT_METHODS and not e.args and not e.keywords:
+            return self._is(e.func.value, names)
+        return False
+
+    def is_text(self, e) -> bool:
+        return self._is(e, self.names)
+
+    def mentions(self, e) -> bool:
+        return any(self.is_text(x) for x in ast.walk(e))
+
+    def values(self, e, c: str) -> Set[str]:
+        """Possible values of a text expression when the header is exactly c (flow-insensitive over local bindings)."""
+        vals: Dict[str, Set[str]] = {k: set() for k in self.names}
+
+        def ev(x) -> Set[str]:
+            if attr_of(x, self.reqn, ('accept',)):
+                return {c}
+            if isinstance(x, ast.Name):
+                return set(vals.get(x.id, ()))
+            return {getattr(v, x.func.attr)() for v in ev(x.func.value)}
+
+        for _ in range(8):
+            changed = False
+            for k in self.names:
+                new = set()
+                for b in self.binds[k]:
+                    new |= ev(b)
+                if new != vals[k]:
+                    vals[k] = new
+                    changed = True
+            if not changed:
+                break
+        return ev(e)
+
+    def forms(self, e) -> Set[str]:
+        """{'raw', 'cased', 'other'}: how far the expression is from the header text itself."""
+        forms: Dict[str, Set[str]] = {k: set() for k in self.names}
+
+        def ev(x) -> Set[str]:
+            if attr_of(x, self.reqn, ('accept',)):
+                return {'raw'}
+            if isinstance(x, ast.Name):
+                return set(forms.get(x.id, ()))
+            inner = ev(x.func.value)
+            if x.func.attr in CASE_METHODS:
+                return {'other' if i == 'other' else 'cased' for i in inner}
+            return {'other'} if inner else set()
+
+        for _ in range(8):
+            changed = False
+            for k in self.names:
+                new = set()
+                for b in self.binds[k]:
+                    new |= ev(b)
+                if new != forms[k]:
+                    forms[k] = new
+                    changed = True
+            if not changed:
+                break
+        return ev(e)
+
+    # -- tests of the text --------------------------------------------------
+    def _strs(self, e):
+        v = self.p.fold(self.f.module, e, None, self.f)
+        if isinstance(v, str):
+            return v
+        if isinstance(v, (tuple, list, frozenset, set)) and v and all(isinstance(x, str) for x in v):
+            return tuple(v)
+        if isinstance(e, ast.Set) and e.elts:
+            vs = [self.p.fold(self.f.module, x, None, self.f) for x in e.elts]
+            if all(isinstance(x, str) for x in vs):
+                return tuple(vs)
+        return None
+
+    def classify(self, e):
+        """-> (kind, text expr, constant(s), negated) | None.  kinds: eq, oneof (text in <constants>), substr (<constant> in text),
+        prefix, suffix, truth."""
+        if isinstance(e, ast.Compare) and len(e.ops) == 1:
+            op, l, r = e.ops[0], e.left, e.comparators[0]
+            if isinstance(op, (ast.Eq, ast.NotEq)):
+                for a, b in ((l, r), (r, l)):
+                    k = self._strs(b) if self.is_text(a) else None
+                    if isinstance(k, str):
+                        return ('eq', a, k, isinstance(op, ast.NotEq))
+            if isinstance(op, (ast.In, ast.NotIn)):
+                neg = isinstance(op, ast.NotIn)
+                if self.is_text(l):
+                    k = self._strs(r)
+                    if isinstance(k, tuple):
+                        return ('oneof', l, k, neg)
+                    if isinstance(k, str):
+                        return ('substr-of-constant', l, k, neg)
+                elif self.is_text(r):
+                    k = self._strs(l)
+                    if isinstance(k, str):
+                        return ('substr', r, k, neg)
+            return None
+        if isinstance(e, ast.Call) and isinstance(e.func, ast.Attribute) and e.func.attr in ('startswith', 'endswith') \
+                and self.is_text(e.func.value) and len(e.args) == 1 and not e.keywords:
+            k = self._strs(e.args[0])
+            if k is not None:
+                return ('prefix' if e.func.attr == 'startswith' else 'suffix', e.func.value, k, False)
+            return None
+        if self.is_text(e):
+            return ('truth', e, None, False)
+        return None
+
+    def atom_const(self, c: str) -> 'Atom':
+        """Valuation when the Accept header is exactly the text c (concrete evaluation)."""
+        def atom(e):
+            k = self.classify(e)
+            if k is None:
+                return None
+            kind, text, const, neg = k
+            res = set()
+            for v in self.values(text, c):
+                if kind == 'eq':
+                    r = v == const
+                elif kind == 'oneof':
+                    r = v in const
+                elif kind == 'substr-of-constant':
+                    r = v in const
+                elif kind == 'substr':
+                    r = const in v
+                elif kind == 'prefix':
+                    r = v.startswith(const)
+                elif kind == 'suffix':
+                    r = v.endswith(const)
+                else:
+                    r = bool(v)
+                res.add(r != neg)
+            return res.pop() if len(res) == 1 else None
+
+        return atom
+
+    def atom_other(self, accepted: Set[str], unreadable: List[ast.AST]) -> 'Atom':
+        """Valuation when the Accept header is any text other than the accepted constants: an exact comparison with
+        accepted constants only is false; every other test of the text stays open."""
+        def invariant(s):
+            return s.lower() == s.upper()
+
+        def atom(e):
+            k = self.classify(e)
+            if k is None or k[0] not in ('eq', 'oneof'):
+                return None
+            kind, text, const, neg = k
+            consts = (const,) if kind == 'eq' else const
+            forms = self.forms(text)
+            if not all(x in accepted for x in consts):
+                return None
+            if forms == {'raw'} or (forms <= {'raw', 'cased'} and all(invariant(x) for x in consts)):
+                return neg          # `text == <accepted>` is False, `!=` True
+            if not any(id(e) == id(u) for u in unreadable):
+                unreadable.append(e)
+            return None
+
+        return atom
+
+
+def _leaves(test):
+    t = strip_await(test)
+    if isinstance(t, ast.UnaryOp) and isinstance(t.op, ast.Not):
+        return _leaves(t.operand)
+    if isinstance(t, ast.BoolOp):
+        out = []
+        for v in t.values:
+            out.extend(_leaves(v))
+        return out
+    return [t]
+
+
+def _offer_parts(p, f: Func, e, depth=0) -> List[Tuple[str, ast.AST]]:
+    """The list handed to the negotiation, flattened into its concatenated parts:
+    ('types', <list/tuple literal or conditional of such>) | ('other', expr)."""
+    if depth > 6:
+        raise UnknownIdiom('%s: offered media types are built too deeply: %s' % (f.qual, short(e)))
+    if isinstance(e, ast.BinOp) and isinstance(e.op, ast.Add):
+        return _offer_parts(p, f, e.left, depth + 1) + _offer_parts(p, f, e.right, depth + 1)
+    if isinstance(e, ast.Call) and isinstance(e.func, ast.Name) and e.func.id in ('list', 'tuple') and len(e.args) == 1 and not e.keywords:
+        return _offer_parts(p, f, e.args[0], depth + 1)
+    if isinstance(e, (ast.List, ast.Tuple)) and any(isinstance(x, ast.Starred) for x in e.elts):
+        out: List[Tuple[str, ast.AST]] = []
+        for x in e.elts:
+            if isinstance(x, ast.Starred):
+                out.extend(_offer_parts(p, f, x.value, depth + 1))
+            else:
+                out.extend(_offer_parts(p, f, ast.List(elts=[x], ctx=ast.Load()), depth + 1))
+        return out
+    if isinstance(e, (ast.List, ast.Tuple)) and e.elts and all(isinstance(p.fold(f.module, x, None, f), str) for x in e.elts):
+        return [('types', e)]
+    if isinstance(e, ast.IfExp):
+        a, b = _offer_parts(p, f, e.body, depth + 1), _offer_parts(p, f, e.orelse, depth + 1)
+        if len(a) == 1 and len(b) == 1 and a[0][0] == b[0][0] == 'types':
+            return [('types', e)]
+        return [('other', e)]
+    if isinstance(e, ast.Name) and e.id not in f.params():
+        binds = []
+        for n in walk_self(f.node):
+            if isinstance(n, ast.Assign) and any(is_name(t, e.id) for t in n.targets):
+                binds.append(n.value)
+            elif isinstance(n, ast.AnnAssign) and is_name(n.target, e.id) and n.value is not None:
+                binds.append(n.value)
+            elif isinstance(n, (ast.AugAssign, ast.For, ast.AsyncFor, ast.NamedExpr)) and any(is_name(x, e.id) for x in ast.walk(n.target)):
+                raise UnknownIdiom('%s: offered media types %s are rebound by %s' % (f.qual, e.id, short(n)))
+            elif isinstance(n, ast.Call) and isinstance(n.func, ast.Attribute) and is_name(n.func.value, e.id) \
+                    and n.func.attr in ('insert', 'sort', 'reverse', 'pop', 'remove', 'clear', '__setitem__'):
+                raise UnknownIdiom('%s: offered media types %s are reordered in place by %s' % (f.qual, e.id, short(n)))
+        if len(binds) == 1:
+            return _offer_parts(p, f, binds[0], depth + 1)
+        if len(binds) > 1:
+            # `if <option>: types = [...] / else: types = [...]`: a conditional list of types
+            alts = [_offer_parts(p, f, b, depth + 1) for b in binds]
+            if all(len(a) == 1 and a[0][0] == 'types' for a in alts):
+                return [('types', e)]
+            raise UnknownIdiom('%s: offered media types %s have %d bindings' % (f.qual, e.id, len(binds)))
+    return [('other', e)]
+
+
+def _type_alternatives(p, f: Func, e) -> List[List[str]]:
+    if isinstance(e, ast.IfExp):
+        return _type_alternatives(p, f, e.body) + _type_alternatives(p, f, e.orelse)
+    if isinstance(e, ast.Name):
+        out: List[List[str]] = []
+        for n in walk_self(f.node):
+            if isinstance(n, ast.Assign) and any(is_name(t, e.id) for t in n.targets):
+                out.extend(_type_alternatives(p, f, n.value))
+            elif isinstance(n, ast.AnnAssign) and is_name(n.target, e.id) and n.value is not None:
+                out.extend(_type_alternatives(p, f, n.value))
+        if not out:
+            raise UnknownIdiom('%s: predefined media types %s' % (f.qual, short(e)))
+        return out
+    parts = _offer_parts(p, f, e)
+    if len(parts) == 1 and parts[0][0] == 'types' and not isinstance(parts[0][1], ast.IfExp):
+        return [[p.fold(f.module, x, None, f) for x in parts[0][1].elts]]
+    if len(parts) == 1 and parts[0][0] == 'types':
+        return _type_alternatives(p, f, parts[0][1])
+    raise UnknownIdiom('%s: predefined media types %s' % (f.qual, short(e)))
+
+
+def _negotiation_rule(run, ser: Func):
+    """The media type the default serializer renders with is the answer of `req.client_prefers(<predefined types first>)`
+    on every path; the only shortcut is exact equality of the Accept text with a constant that the negotiation provably
+    maps to the first predefined type."""
+    p = run.project
+    cfg = cfg_of(ser, p)
+    run.use_cfg(cfg)
+    ix = Index(cfg)
+    reqn = param_at(ser, 0, 'req')
+    jmod = p.module('falcon.constants')
+    if 'MEDIA_JSON' not in jmod.consts:
+        raise AnchorError('falcon.constants.MEDIA_JSON not found')
+    json_type = p.fold(jmod, jmod.consts['MEDIA_JSON'])
+    if not isinstance(json_type, str):
+        raise UnknownIdiom('falcon.constants.MEDIA_JSON is not a constant string')
+    negs = [c for c in walk_self(ser.node) if isinstance(c, ast.Call) and isinstance(c.func, ast.Attribute)
+            and c.func.attr == 'client_prefers' and is_name(c.func.value, reqn)]
+    if not negs:
+        raise AnchorError('%s: no %s.client_prefers(...) negotiation call' % (ser.qual, reqn))
+    neg_nodes = _call_nodes(ix, negs)
+    # (1) what is offered, in which order
+    for c in negs:
+        if len(c.args) != 1 or c.keywords:
+            raise UnknownIdiom('%s: negotiation call %s' % (ser.qual, short(c)))
+        parts = _offer_parts(p, ser, c.args[0])
+        typed = [i for i, (k, _e) in enumerate(parts) if k == 'types']
+        if not typed:
+            raise UnknownIdiom('%s: no literal list of predefined media types in %s' % (ser.qual, short(c.args[0])))
+        run.check(typed[0] == 0, 'the default error serializer offers the predefined media types before the registered handlers '
+                                 '(an equal match goes to the first one offered)', ser, 'offered: ' + short(c.args[0]), where=ser.loc(c),
+                  runtime_witness='Accept: */* (or no Accept header) with a registered handler listed first: the error is no longer JSON')
+        alts = [a for i in typed[:1] for a in _type_alternatives(p, ser, parts[i][1])]
+        bad = [a for a in alts if a[0] != json_type]
+        run.check(not bad, 'JSON is the first of the predefined media types the default error serializer offers', ser,
+                  'predefined: ' + short(parts[typed[0]][1]), where=ser.loc(parts[typed[0]][1]),
+                  runtime_witness='Accept: application/json, application/xml (equal weight): the error is rendered as %s' % (bad[0][0] if bad else ''))
+    # (2) no Accept-text test selects a type without the negotiation
+    tx = _AcceptText(p, ser, reqn)
+    accepted = {CATCH_ALL_RANGE, json_type}
+    unreadable: List[ast.AST] = []
+    other = tx.atom_other(accepted, unreadable)
+    gen = pruned(cfg, other, flow.no_exc)
+    bypass = flow.find_path(cfg, [cfg.entry], [cfg.exit], avoid_nodes=neg_nodes, edge_filter=gen)
+    offending = []
+    if bypass is not None:
+        fwd = flow.reachable(cfg, [cfg.entry], avoid_nodes=neg_nodes, edge_filter=gen)
+        for n in cfg.live_nodes():
+            if n.kind != 'test' or n.id not in fwd or not tx.mentions(n.ast) or eval3(n.ast, other) is not None:
+                continue
+            # the test decides it: one outcome can still reach the negotiation, the other one only the exit
+            outs = [y for (y, l) in cfg.succ[n.id] if l in ('T', 'F')]
+            to_neg = [bool(flow.reachable(cfg, [y], edge_filter=gen) & set(neg_nodes)) for y in outs]
+            skips = [y for y, tn in zip(outs, to_neg) if not tn
+                     and flow.find_path(cfg, [y], [cfg.exit], avoid_nodes=neg_nodes, edge_filter=gen) is not None]
+            if not (skips and any(to_neg)):
+                continue
+            for leaf in _leaves(n.ast):
+                if not tx.mentions(leaf) or eval3(leaf, other) is not None:
+                    continue
+                if tx.classify(leaf) is None:
+                    raise UnknownIdiom('%s: test of the Accept text %s' % (ser.qual, short(leaf)))
+                if any(leaf is u for u in unreadable):
+                    raise UnknownIdiom('%s: comparison of a transformed (case-folded / stripped) Accept text %s' % (ser.qual, short(leaf)))
+                offending.append((n, leaf))
+        if not offending:
+            raise UnknownIdiom('%s: the negotiation call is skipped under a condition that is not a test of the Accept header: %s'
+                               % (ser.qual, '; '.join(flow.describe_path(cfg, bypass)[:6])))
+    for n, leaf in offending:
+        run.fail('the media type of a default error response is decided by req.client_prefers() for every Accept header: a prefix / '
+                 'substring / non-catch-all comparison of the Accept text must not select a type instead', ser, leaf,
+                 where='%s:%s' % (ser.file, n.lineno), witness=flow.describe_path(cfg, bypass),
+                 runtime_witness="Accept: application/json;q=0.2, application/xml (or application/json;q=0): the q-values are never "
+                                 "looked at and the error is rendered in the type the text test picked")
+    if not offending:
+        run.ok('every path of the default error serializer negotiates through req.client_prefers() unless the Accept text equals a '
+               'catch-all constant', ser.loc(negs[0]), negs[0])
+    # (3) the exact-equality shortcuts select what the negotiation would: the first predefined type
+    pref: Set[str] = set()
+    for n in walk_self(ser.node):
+        if isinstance(n, ast.Assign) and any(n.value is c for c in negs):
+            pref.update(t.id for t in n.targets if isinstance(t, ast.Name))
+        elif isinstance(n, (ast.AnnAssign, ast.NamedExpr)) and any(n.value is c for c in negs) and isinstance(n.target, ast.Name):
+            pref.add(n.target.id)
+
+    for _ in range(4):
+        for n in walk_self(ser.node):
+            if isinstance(n, ast.Assign) and isinstance(n.value, ast.Name) and n.value.id in pref:
+                pref.update(t.id for t in n.targets if isinstance(t, ast.Name))
+
+    def pref_assign(n):
+        a = n.ast
+        if n.kind != 'stmt':
+            return None
+        if isinstance(a, ast.Assign) and any(isinstance(t, ast.Name) and t.id in pref for t in a.targets):
+            return a.value
+        if isinstance(a, ast.AnnAssign) and isinstance(a.target, ast.Name) and a.target.id in pref and a.value is not None:
+            return a.value
+        return None
+
+    for c in sorted(accepted):
+        filt = pruned(cfg, tx.atom_const(c), flow.no_exc)
+        if flow.find_path(cfg, [cfg.entry], [cfg.exit], avoid_nodes=neg_nodes, edge_filter=filt) is None:
+            continue
+        if not pref:
+            raise UnknownIdiom('%s: the result of the negotiation call is not bound to a local' % ser.qual)
+        fwd = flow.reachable(cfg, [cfg.entry], avoid_nodes=neg_nodes, edge_filter=filt)
+        sets = []
+        for n in cfg.live_nodes():
+            v = pref_assign(n) if n.id in fwd else None
+            if v is None or flow.find_path(cfg, [n.id], [cfg.exit], avoid_nodes=neg_nodes, edge_filter=filt) is None:
+                continue
+            val = p.fold(ser.module, v, None, ser)
+            if val is UNKNOWN:
+                raise UnknownIdiom('%s: shortcut for Accept == %r selects %s' % (ser.qual, c, short(v)))
+            sets.append(n.id)
+            run.check(val == json_type, 'a shortcut taken when the Accept header is exactly %r selects what the negotiation would: the first '
+                                        'predefined type' % c, ser, n.ast, where='%s:%s' % (ser.file, n.lineno),
+                      runtime_witness='Accept: %s is answered with %r instead of %s' % (c, val, json_type))
+        hole = flow.find_path(cfg, [cfg.entry], [cfg.exit], avoid_nodes=set(neg_nodes) | set(sets), edge_filter=filt)
+        if hole is not None:
+            raise UnknownIdiom('%s: when Accept == %r neither the negotiation nor an assignment of %s is on the path: %s'
+                               % (ser.qual, c, '/'.join(sorted(pref)), '; '.join(flow.describe_path(cfg, hole)[:6])))
+    # (4) after the negotiation its answer is replaced only when it found nothing
+    if pref:
+        is_pref = lambda e: (isinstance(e, ast.Name) and e.id in pref) or (  # noqa: E731
+            isinstance(e, ast.NamedExpr) and isinstance(e.target, ast.Name) and e.target.id in pref)
+
+        def found(e):
+            """valuation when the negotiation found a type (a non-empty string)"""
+            if is_pref(e):
+                return True
+            pol = none_test(e, is_pref)
+            if pol is not None:
+                return not pol
+            if isinstance(e, ast.Compare) and len(e.ops) == 1 and isinstance(e.ops[0], (ast.Eq, ast.NotEq)) and is_pref(e.left) \
+                    and p.fold(ser.module, e.comparators[0], None, ser) == '':
+                return isinstance(e.ops[0], ast.NotEq)
+            return None
+
+        after = flow.reachable(cfg, [y for nn in neg_nodes for (y, l) in cfg.succ[nn] if l != 'exc'], edge_filter=flow.no_exc)
+        for n in cfg.live_nodes():
+            v = pref_assign(n) if n.id in after and n.id not in neg_nodes else None
+            if v is None or (isinstance(v, ast.Constant) and v.value is None) or is_pref(v):
+                continue
+            facts = ix.facts(n.id)
+            for (t, _tr) in facts:
+                for leaf in _leaves(t):
+                    if any(is_pref(x) for x in ast.walk(leaf)) and found(leaf) is None and not (
+                            isinstance(leaf, ast.Compare) and len(leaf.ops) == 1 and isinstance(leaf.ops[0], (ast.Eq, ast.NotEq))
+                            and p.fold(ser.module, leaf.comparators[0], None, ser) is not UNKNOWN and is_pref(leaf.left)):
+                        raise UnknownIdiom('%s: test of the negotiated media type %s' % (ser.qual, short(leaf)))
+            run.check(refuted(facts, found),
+                      'after the negotiation the selected media type is replaced only when the negotiation found none', ser, n.ast,
+                      where='%s:%s' % (ser.file, n.lineno),
+                      runtime_witness='an Accept header the negotiation answers with one type is served another one')
+
+
 def r4_rendering(run):
     p = run.project
     _anchors(run.project)
@@ -1025,6 +1465,8 @@ def r4_rendering(run):
     run.check(bool(vary) and path is None, 'the default error serializer appends Vary: Accept on every path', ser,
               "%s.append_header('Vary', 'Accept')" % respn, where=ser.loc(), witness=flow.describe_path(cfg, path) if path else None,
               runtime_witness='an error response without Vary: Accept (e.g. when no acceptable media type was found)')
+    # (f) negotiated media type
+    _negotiation_rule(run, ser)
     # (c) sibling field sets
     d = _dict_fields(run, p.func(HTTP_ERROR + '.to_dict'))
     xf = p.func(HTTP_ERROR + '._to_xml')
@@ -1481,6 +1923,127 @@ def r6_pre_try(run):
         _pre_try(run, app, qual, tag)
 
 
+# ---------------------------------------------------------------------------
+# R8 what the serializer negotiates with: req.accept never answers '' / None
+# ---------------------------------------------------------------------------
+
+class _AcceptGetterEval(_c9._GetterEval):
+    """c09_helpers' accessor interpreter, which additionally reads `<bytes constant>.decode(<codec>)` (the default of a
+    `.get(b'accept', b'*/*')` lookup decoded together with the header value)."""
+
+    def ev(self, e, loc):
+        if isinstance(e, ast.Call) and isinstance(e.func, ast.Attribute) and e.func.attr == 'decode' and not e.keywords \
+                and all(isinstance(x, ast.Constant) for x in e.args):
+            v = self.ev(e.func.value, loc)
+            if v == _c9.K_VALUE:
+                return v
+            if v[0] == 'const' and isinstance(v[1], bytes):
+                try:
+                    return ('const', v[1].decode(*[x.value for x in e.args]))
+                except Exception:  # noqa: BLE001
+                    self.bad('decode of a constant', e)
+            self.bad('call', e)
+        return super().ev(e, loc)
+
+
+def _accept_kinds(p, getter: Func, env) -> Dict[str, tuple]:
+    try:
+        return _c9.header_getter_kinds(p, getter, env)
+    except _c9.Unreadable:
+        pass
+    if getter.is_async or len(getter.params()) != 1:
+        raise _c9.Unreadable('%s: not a one-argument synchronous getter' % getter.qual)
+    out: Dict[str, tuple] = {}
+    tables: Set[str] = set()
+    for inp in _c9.HEADER_INPUTS:
+        ge = _AcceptGetterEval(getter, env or {}, inp)
+        try:
+            r = ge.run(getter.node.body, {})
+            v = r[1] if r is not None else _c9.K_NONE
+        except _c9._HeaderMissing:
+            v = ('raises', 'KeyError')
+        if v == _c9.K_VALUE and inp == 'blank':
+            v = ('const', '')
+        out[inp] = v
+        tables |= ge.tables
+    if len(tables) != 1:
+        raise _c9.Unreadable('%s: reads %d request-header tables' % (getter.qual, len(tables)))
+    return out
+
+
+def _header_names_read(p, getter: Func, env) -> Set[Optional[str]]:
+    """Canonical names of the headers whose table entry the getter consults (None: not a header key / not constant)."""
+    out: Set[Optional[str]] = set()
+
+    def key_of(kind, k):
+        if isinstance(k, ast.Constant):
+            return _c9.norm_header_key(kind, k.value)
+        if isinstance(k, ast.Name) and env.get(k.id) is not None:
+            v = env[k.id]
+            if v[0] == 'const':
+                return _c9.norm_header_key(kind, v[1])
+            if v[0] == 'derived':
+                # a factory local computed from the header name: the name itself is a constant argument of the factory
+                names = {x[1].lower() for x in env.values() if x[0] == 'const' and isinstance(x[1], str)}
+                return names.pop() if len(names) == 1 else None
+        return None
+
+    for n in walk_no_nested(getter.node):
+        tbl = key = None
+        if isinstance(n, ast.Subscript) and isinstance(n.ctx, ast.Load):
+            tbl, key = _c9.table_of(getter, n.value), n.slice
+        elif isinstance(n, ast.Compare) and len(n.ops) == 1 and isinstance(n.ops[0], (ast.In, ast.NotIn)):
+            tbl, key = _c9.table_of(getter, n.comparators[0]), n.left
+        elif isinstance(n, ast.Call) and isinstance(n.func, ast.Attribute) and n.func.attr == 'get' and n.args:
+            tbl, key = _c9.table_of(getter, n.func.value), n.args[0]
+        if tbl is not None and tbl[0] in ('environ', 'asgi-headers'):
+            out.add(key_of(tbl[0], key))
+    return out
+
+
+def r8_accept_default(run):
+    """`default_serialize_error` negotiates on `req.accept` (through client_prefers and directly).  An accessor that answers
+    '' or None for a request that states no preference makes every default error response body-less."""
+    p = run.project
+    expected = {'missing': ('const', CATCH_ALL_RANGE), 'blank': ('const', CATCH_ALL_RANGE), 'non-blank': _c9.K_VALUE}
+    words = {'missing': 'missing', 'blank': 'present but blank', 'non-blank': 'present and non-blank'}
+    for cq, tag in ((_c9.WSGI_REQ, 'WSGI'), (_c9.ASGI_REQ, 'ASGI')):
+        p.cls(cq)
+        mem = _c9.effective_members(p, cq)
+        # the negotiation the serializer calls reads this very accessor
+        cp = mem.get('client_prefers')
+        if cp is None or cp.func is None:
+            raise AnchorError('%s.client_prefers not found' % cq)
+        if not any(is_self_attr(x, 'accept') for x in walk_self(cp.func.node)):
+            raise AnchorError('%s does not negotiate on self.accept' % cp.func.qual)
+        m = mem.get('accept')
+        if m is None:
+            raise AnchorError('%s.accept not found' % cq)
+        if m.kind == 'factory':
+            _fac, getter, env = _c9.factory_bindings(p, p.cls(m.owner), getattr(m.node, 'value', None))
+            site, where = '%s.%s' % (m.owner, m.name), p.cls(m.owner).loc(m.node)
+        elif m.func is not None and m.func.is_property():
+            getter, env = m.func, {}
+            site, where = getter, getter.loc()
+        else:
+            raise UnknownIdiom('%s.accept is neither a property nor a factory-built header property (%s)' % (cq, m.kind))
+        run.use(getter)
+        kinds = _accept_kinds(p, getter, env)
+        names = _header_names_read(p, getter, env)
+        if None in names or not names:
+            raise UnknownIdiom('%s: header consulted by the accept accessor is not a constant header key' % getter.qual)
+        run.check(names == {'accept'}, '%s: req.accept reads the Accept header' % tag, site, 'accept reads %s' % ', '.join(sorted(names)),
+                  where=where)
+        wit = ['Accept header %s -> %s' % (words[c], _c9.kind_text(kinds[c])) for c in _c9.HEADER_INPUTS]
+        for c in _c9.HEADER_INPUTS:
+            ok = kinds[c] == expected[c]
+            run.check(ok, '%s: req.accept, which the default error serializer negotiates with, is %s when the Accept header is %s'
+                      % (tag, _c9.kind_text(expected[c]), words[c]), site,
+                      'accept(%s header)' % c if ok else 'accept(%s header) -> %s' % (c, _c9.kind_text(kinds[c])), where=where, witness=wit,
+                      runtime_witness='a request whose Accept header is %s gets req.accept = %s: nothing on offer matches it and every '
+                                      'default error response (HTTPError, 404, 500) is sent without a body' % (words[c], _c9.kind_text(kinds[c])))
+
+
 def check(run):
     run.assume('request_type / response_type are the framework defaults (custom subclasses are outside the model)')
     run.assume('for HTTP requests the resp argument of the error machinery is a Response object (truthy); the ws-only paths are pruned')
@@ -1500,4 +2063,6 @@ def check(run):
     # that it can veto a type (shared with C11 R8)
     from . import c11 as _c11
 
+    run.rule('R8', r8_accept_default, "req.accept (what the error serializer negotiates with) is '*/*' for a missing and for a blank "
+             'Accept header on both stacks', floor=8)
     run.rule('R7', _c11._safe(_c11.r8_q_never_decides_match), 'error-serializer negotiation: q never decides whether a media range matches (shared with C11 R8)', floor=5)
